@@ -495,15 +495,57 @@ def unit_smoothing_lemmas(tier=None, seed=None):
     from ..core import SRC
     res = UnitResult(unit="smooth_axis_monotone.exit_lemmas")
     tree = ast.parse((SRC / "smooth.py").read_text())
-    op = None
+    # Which difference operator feeds the loop-1 exit test?  Read structurally (names of variables and helpers, and
+    # np.f(x) vs x.f() spellings, do not matter): every function of smooth.py that smooth_axis_monotone can reach is
+    # searched for  <operator>(...)  calls and for a comparison of the shape  |sum(v)| == sum(|v|).
+    funcs = {}
     for node in ast.walk(tree):
-        if isinstance(node, ast.FunctionDef) and node.name == "smooth_axis_monotone":
-            for n in ast.walk(node):
-                if isinstance(n, ast.Assign) and isinstance(n.targets[0], ast.Name) and n.targets[0].id == "gradient" \
-                        and isinstance(n.value, ast.Call) and isinstance(n.value.func, ast.Attribute):
-                    op = n.value.func.attr
-            src = ast.get_source_segment((SRC / "smooth.py").read_text(), node)
-            cond_ok = "np.abs(np.sum(gradient)) == np.sum(np.abs(gradient))" in src
+        if isinstance(node, (ast.FunctionDef, ast.Lambda)) and getattr(node, "name", None):
+            funcs.setdefault(node.name, node)
+    reach, todo = set(), ["smooth_axis_monotone"]
+    while todo:
+        nm = todo.pop()
+        if nm in reach or nm not in funcs:
+            continue
+        reach.add(nm)
+        for n in ast.walk(funcs[nm]):
+            if isinstance(n, ast.Call) and isinstance(n.func, ast.Name):
+                todo.append(n.func.id)
+            if isinstance(n, ast.FunctionDef) and n is not funcs[nm]:
+                todo.append(n.name)
+
+    def shape(e):
+        """abs/sum nesting of an expression over one variable: 'abs(sum(v))', 'sum(abs(v))', ... or None"""
+        if isinstance(e, ast.Call):
+            f = e.func
+            fname = f.attr if isinstance(f, ast.Attribute) else (f.id if isinstance(f, ast.Name) else None)
+            if fname in ("abs", "absolute", "sum", "fabs"):
+                fname = "abs" if fname != "sum" else "sum"
+                if e.args:
+                    inner = shape(e.args[0])
+                elif isinstance(f, ast.Attribute):          # method form: v.sum()
+                    inner = shape(f.value)
+                else:
+                    inner = None
+                return None if inner is None else f"{fname}({inner})"
+            return None
+        if isinstance(e, ast.Name):
+            return "v"
+        return None
+    ops, cond_ok = set(), False
+    for nm in reach:
+        for n in ast.walk(funcs[nm]):
+            if isinstance(n, ast.Call) and isinstance(n.func, ast.Attribute) and n.func.attr in ("gradient", "diff") \
+                    and isinstance(n.func.value, ast.Name) and n.func.value.id in ("np", "numpy"):
+                # (np.diff of an index list -- tie bookkeeping -- is not a difference of the data; it never feeds an
+                #  abs/sum comparison, and counting it can only make the lemma harder: gradient wins below)
+                ops.add(n.func.attr)
+            if isinstance(n, ast.Compare) and len(n.ops) == 1 and isinstance(n.ops[0], ast.Eq):
+                pair = {shape(n.left), shape(n.comparators[0])}
+                if pair == {"abs(sum(v))", "sum(abs(v))"}:
+                    cond_ok = True
+    # a central-difference operator anywhere on the path decides the (harder) lemma
+    op = "gradient" if "gradient" in ops else ("diff" if "diff" in ops else None)
     if op not in ("gradient", "diff") or not cond_ok:
         res.obligations.append(ObResult(oid="C07.smooth_axis_monotone.L1_exit_implies_weakly_monotone", status=UNDECIDED,
                                         backend="engine", detail=f"exit test not recognised (operator {op})"))
@@ -768,7 +810,8 @@ def unit_bounded_steps(tier=None, seed=0):
     res.bounded.append(BoundedResult(
         bid="C07.bounded.steps_on_synthetic_and_recorded_curves", ok=not problems, evaluations=ne, distinct=ne,
         bound="5 steps x 3 synthetic curves (noise, tilt) x all regions/strategies; smoothing on seeded noisy ramps "
-              "(noise below one sample step); all six steps on a recorded curve",
+              "(noise below one sample step); all six steps on a recorded curve; the smooth_height step on a recorded "
+              "curve whose height columns are clean ramps with four runs of three equal samples",
         detail="every clause holds" if not problems else str({k: v for k, v in problems[0].items() if k != 'data'})[:300],
         samples=[{"step": "correct_force_slope", "regions": 3, "strategies": 2}],
         failing_input=problems[0] if problems else None,
